@@ -464,7 +464,10 @@ mod imp {
                 let l = rt.block_on(WebSocketServer::listen("127.0.0.1:0")).map_err(|e| format!("ws bind: {e}"))?;
                 let addr = l.local_addr().map_err(|e| e.to_string())?;
                 let t = rt.spawn(async move {
-                    let _ = WebSocketServer::new(router).serve_listener(l, "/repe").await;
+                    // no per-connection cap on off-reader handlers: the families of this stage share one connection and park many
+                    // `next` requests at once; admission control (its refusals are C16's subject) must not turn the harness's own
+                    // concurrency into refused pulls
+                    let _ = WebSocketServer::new(router).with_offreader_limit(0).serve_listener(l, "/repe").await;
                 });
                 Ok(Srv { addr, ws_task: Some(t) })
             }
@@ -1617,7 +1620,9 @@ mod imp {
         }
         quiet_panics(false);
         sidecar_summary(&mut rep, args, true);
-        crowd::summary(&mut rep, true);
+        if args.scale >= 0.5 {
+            crowd::summary(&mut rep, true);
+        }
         if rep.get_count("streams_completed") == 0 && rep.inconclusive.is_empty() {
             rep.inconclusive("no stream was pulled");
         }
@@ -1630,6 +1635,13 @@ mod imp {
         rep.set("fragmenting_source_shapes", json!(frag::MODES.iter().map(|m| m.tag()).collect::<Vec<_>>()));
         rep.set("slow_consumer_stalls_ms", json!(slowc::stalls_ms(args)));
         if !rep.inconclusive.is_empty() {
+            return;
+        }
+        if args.scale < 0.5 {
+            // a slow engine (memcheck at a fiftieth of the budget) is there for memory errors in whatever the stage reaches;
+            // which of the side-car families gets a whole stream through in that window is a matter of scheduling, so their
+            // "observed nothing" floors are decided by the native run of the same stage
+            rep.set("sidecar_floors_left_to_the_native_stage", json!(true));
             return;
         }
         if rep.get_count("producer_option_streams_exact") == 0 {
